@@ -235,8 +235,130 @@ def _c10():
 
 
 PROPS["C10"] = _c10()
-PROPS["XS"] = dict(kind="mux", module="stream_h.rs", harnesses=[H(n, profiles=("dev",)) for n in harness_names("stream_h.rs", "c")])
-PROPS["XT"] = dict(kind="mux", module="task_h.rs", harnesses=[H(n, profiles=("dev",)) for n in harness_names("task_h.rs", "c") if n.startswith(("c04","c07","c11","c15"))])
+
+def all_mux_harnesses():
+    out = {}
+    for f in ("task_h.rs", "stream_h.rs", "bridge_h.rs", "timing_h.rs", "config_h.rs"):
+        try:
+            for n in harness_names(f, "c"):
+                out[n] = f
+        except FileNotFoundError:
+            pass
+    return out
+
+
+MUXH = all_mux_harnesses()
+
+
+def mux_module_of(h):
+    return MUXH.get(h, "task_h.rs")
+
+
+HEAVY = {  # harness -> (mem_gb, timeout_s): thorough tier only
+    "c07_request_acked": (26, 2400), "c07_request_rejected_r2": (26, 2400), "c11_send_h255_p1": (20, 1800), "c11_send_h256_p1": (20, 1800),
+    "c12_race_ack_w0": (12, 1200), "c06_peer_reset_app_view": (12, 1200),
+}
+
+
+def mux_prop(pid, names, thorough_only=(), notes=None, extra_unwindset=(), **kw):
+    hs = []
+    for n in names:
+        heavy = HEAVY.get(n)
+        tier = "thorough" if (n in thorough_only or heavy or n.startswith("c10_connect_")) else "quick"
+        mem, tmo = heavy if heavy else ((26, 2400) if n.startswith("c10_connect_") else (None, None))
+        hs.append(H(n, tier=tier, profiles=("dev", "rel"), unwindset=list(extra_unwindset) + vec_loops(2), mem_gb=mem, timeout=tmo, note=(notes or {}).get(n, kw.get("note", ""))))
+    d = dict(kind="mux", module_of=mux_module_of, harnesses=hs, trusted=MUX_TRUST)
+    d.update({k: v for k, v in kw.items() if k != "note"})
+    return d
+
+
+def pick(*prefixes, extra=()):
+    return [n for n in MUXH if n.startswith(tuple(prefixes))] + [e for e in extra if e in MUXH]
+
+
+COMMON_OUTSIDE = ["real thread interleavings inside tokio's channels and the tokio scheduler (trusted contract: FIFO, exact capacity, wake on send/receive)",
+                  "queues longer than 2 frames, more than 3 flows per endpoint (model capacities)"]
+
+PROPS["C02"] = mux_prop(
+    "C02", pick("c02_", extra=["c10_push_est_room", "c10_push_absent"]), thorough_only={"c02_w_vec_0_0", "c02_w_vec_none", "c02_r_rem2_q2_cap3", "c02_w_plain_l3"},
+    note="local contract of the decomposition W (write -> exactly one Push with exactly those bytes), S (sender step moves exactly the head of the FIFO), D (Push appended to its own flow's FIFO only), R (reads return the next bytes, frames popped only when used up)",
+    bounds=dict(write_len="0,1,3 bytes; vectored: 0..2 slices of 0..2 bytes", read="remainder 0..2 bytes, 0..2 queued frames (1 and 2 bytes), read buffer 1 or 3 bytes", credit="symbolic u32", flows="addressed flow + arbitrary bystander"),
+    outside=COMMON_OUTSIDE + ["the end-to-end statement is obtained by composing W, S, C09 (codec), D, R by hand (DESIGN.md 4-C02); the composition argument is not machine-checked"],
+    assumptions=["FIFO channels (tokio contract)", "C09: the frame codec is the identity on Push payloads"],
+    explanation="Five local contracts over the real MuxStream / Task code whose conjunction gives: bytes read = prefix of bytes written, per stream, in order, exactly once, no cross-talk.")
+
+PROPS["C03"] = mux_prop(
+    "C03", pick("c03_", "c02_w_plain", "c02_w_vec_1_2", extra=["c10_push_est_full", "c10_ack_est", "c04_threshold_con_recv", "c04_threshold_ack_recv"]), thorough_only={"c02_w_plain_l3"},
+    note="one transition of the credit accounting invariant credit + in-flight + queued + consumed-unacked + acks-in-flight = rwnd",
+    bounds=dict(windows="symbolic u32", thresholds="symbolic u32 >= 1", counter="symbolic < threshold", queue="capacity 2"),
+    outside=COMMON_OUTSIDE + ["the invariant over whole two-party runs is composed by hand from the per-transition checks (DESIGN.md 4-C03)"],
+    assumptions=["credit + n <= u32::MAX when an Acknowledge(n) arrives (implied by the invariant between conforming endpoints)"],
+    explanation="Every transition of the real code that touches the flow-control accounting is checked from an arbitrary state: init (credit = peer window), send (one unit per Push, none without credit), receive/overrun (Reset of that flow only), consume (Acknowledge carries exactly the frames consumed since the last one, once), credit return.")
+
+PROPS["C04"] = mux_prop(
+    "C04", pick("c04_", extra=["c03_ack_accounting", "c10_push_est_full", "c10_push_est_room", "c10_datagram_est", "c11_recv_full_p2", "c02_w_plain_l1", "c02_r_rem0_q0_cap1", "c12_race_ack_w2", "c12_race_ack_w3"]),
+    note="liveness-critical arithmetic and non-blocking dispatch",
+    bounds=dict(options="all (rwnd >= 1, default_rwnd_threshold >= 1) accepted by Options, all peer windows >= 1 (symbolic u32)", dispatch="inbound dispatch from full and non-full queues"),
+    outside=["PARTIAL: 'every write eventually completes' is a liveness property over unbounded fair runs and is not checked; decided are (a) 1 <= ack threshold <= window advertised for every accepted Options pair (the deadlock condition), (b) the connection task never blocks on a slow reader (Push to a full queue, datagram to a full buffer return immediately), (c) an Acknowledge is emitted as soon as the threshold is reached, (d) a writer blocked on credit is woken by it (C12)",
+             "fairness of the tokio scheduler; Connect/Bind delivery to a full accept queue blocks the connection task by design (premise of the property)"],
+    assumptions=[], explanation="The conditions under which the pinned tree deadlocked (threshold above the advertised window) as a solver query over all option values, plus the non-blocking steps progress relies on.")
+
+PROPS["C05"] = mux_prop(
+    "C05", pick("c05_", extra=["c02_w_plain_l0", "c02_w_plain_l1", "c02_w_vec_0_0", "c02_r_rem0_q0_cap1", "c02_r_rem0_q1_cap1", "c10_finish_est", "c10_finish_est_readclosed", "c06_peer_reset_app_view"]),
+    thorough_only={"c02_w_vec_0_0"},
+    note="end-of-stream only when the sender is gone and the queue is drained; empty writes; shutdown once; BrokenPipe afterwards",
+    bounds=dict(writes="0,1 bytes plain and vectored-empty", queue="0..2 frames"), outside=COMMON_OUTSIDE,
+    assumptions=[], explanation="EOF is reported iff the inbound sender is gone and everything queued was returned; a zero-length write is followed through to the peer's reader; Finish closes only the inbound direction; shutdown emits exactly one Finish and later writes fail with BrokenPipe.")
+
+PROPS["C06"] = mux_prop(
+    "C06", pick("c06_", extra=["c10_reset_est", "c10_reset_est_full", "c10_reset_requested", "c10_reset_bindreq", "c07_request_rejected_r1"]),
+    note="close paths from an arbitrary table; re-open of a released id",
+    bounds=dict(table="<= 3 slots, bystander in an arbitrary state", closed_flow="symbolic credit / closed flag / one queued frame / counter"), outside=COMMON_OUTSIDE + ["open/close cycles longer than close + re-open (each step is checked from an arbitrary bounded table instead)"],
+    assumptions=[], explanation="Drop without shutdown -> Reset once and slot removed; drop after shutdown -> no Reset; peer Reset -> no reply, queued data then EOF, BrokenPipe; table shrinks by one; a re-opened id starts with fresh credit, flags, queue and counters; bystander untouched.")
+
+PROPS["C07"] = mux_prop(
+    "C07", pick("c07_", extra=["c10_conrecv_absent", "c10_conrecv_zero", "c10_conrecv_est", "c10_conrecv_requested", "c10_ack_requested", "c10_ack_absent", "c10_ack_bindreq", "c04_threshold_ack_recv"]),
+    note="id allocation over all RNG draw sequences; request / retry / give-up; acceptor sees host, port, credit",
+    bounds=dict(rng="all sequences of <= 4 draws (id allocation); scripted draws 0, in-use, fresh, fresh for the request flows", retries="max_flow_id_retries 1 and 2", host="2 bytes symbolic", table="one live flow"),
+    outside=COMMON_OUTSIDE + ["RNG sequences needing more than 4 draws (cut by assumption)", "max_flow_id_retries > 2"],
+    assumptions=["the peer's answers are applied through ack_recv_new_stream / close_flow, which process_frame dispatches to (dispatch decided under C10)"],
+    explanation="Never id 0 or an id in use; one Connect per attempt with the requested host/port and own rwnd; Acknowledge establishes exactly once with the peer's window as credit; rejected requesters retry with fresh ids and fail with FlowIdRejected after max_flow_id_retries; colliding Connect is Reset without touching the local request.")
+
+PROPS["C11"] = mux_prop(
+    "C11", pick("c11_", extra=["c10_datagram_absent", "c10_datagram_est"]), thorough_only={"c11_agreement_p4", "c11_send_h1_p1"},
+    note="send (<=255 / 256-byte host), receive from every buffer occupancy, sender/receiver agreement on short payloads",
+    bounds=dict(host_len="0,1,2 (quick), 255, 256 (thorough)", payload_len="0..4", buffer="datagram_buffer_size 2: occupancy 0, 1, full", ids="symbolic incl. 0"),
+    outside=COMMON_OUTSIDE + ["payloads longer than 4 bytes", "interleaving with stream traffic beyond the bystander check"],
+    assumptions=[], explanation="send_datagram refuses hosts > 255 with no other effect, else emits exactly one frame carrying the four fields; the receive path appends at the tail or drops when full, never blocks, never fails; what send_datagram emits decodes at the peer for payloads of 0..4 bytes.")
+
+PROPS["C12"] = mux_prop(
+    "C12", pick("c12_", extra=["c03_credit_return"]),
+    note="the other party's whole operation runs before / at the k-th log site of / after the writer's poll",
+    bounds=dict(parties="one writer poll vs one acknowledge(n>=1) or one close", scheduling_points="before the poll, at each place where poll_obtain_write_permission logs (up to 5), after the poll", memory_model="sequential consistency"),
+    outside=["PARTIAL: interleavings at the granularity of individual atomic operations and C11 weak-memory behaviours are NOT explored (Kani has no threads; atomics cannot be stubbed); only whole-operation injection at the listed points", "two concurrent writers",
+             "a change that removes the log lines removes scheduling points: the run then fails its witness (no harness satisfied 'ran at a scheduling point inside')"],
+    assumptions=["futures_util::task::AtomicWaker is executed for real (sequentially)"],
+    require_covers_any=[r"the other party ran at a scheduling point inside"],
+    native_shims=["tracing", "tracing-attributes"],
+    explanation="Sequentialised two-party race: if the poll returns Pending although credit arrived or the stream was closed at any chosen point, a wake-up must have been delivered; final credit = grants - permissions.")
+
+PROPS["C16"] = mux_prop(
+    "C16", pick("c16_"), thorough_only={"c16_history_i1_t3", "c16_history_i1_tnone", "c16_answered_within_t_i2_t3_p3"},
+    # per poll the ping loop starts its body at most twice (tick ready -> ping -> tick pending)
+    extra_unwindset=[(r"schedule_ping_task", 3)],
+    native_shims=["tokio"],   # the virtual clock has no real counterpart
+    note="real schedule_ping_task under the virtual clock; pong history chosen by the solver",
+    bounds=dict(pairs="(I,T) in seconds: (1,1), (2,3), (1,3), (2,1 -> clamped), (1,none), (none,none), (none,5); clamp rule: all values up to 1e9 s",
+                ticks="3..5 ticks; after each tick the peer answers or not, at a symbolic instant in (tick, tick+I]", clock="virtual, milliseconds; ticks exactly on time (no scheduler jitter)"),
+    outside=["PARTIAL: what happens after the timeout on a silent transport (pending calls) belongs to C08", "wall-clock jitter of a loaded runtime (ticks are exactly on time in the model)", "intervals with sub-millisecond parts"],
+    assumptions=["tokio::time::interval semantics as documented (first tick immediate, then every period; MissedTickBehavior::Skip)"],
+    explanation="The real ping loop is driven tick by tick under a virtual clock: exactly one Ping per interval; KeepaliveTimeout exactly when more than T elapsed since the last pong (hence not before T and not after T+I); nothing when disabled; clamp T >= I for all option values. The clause 'each ping answered within T => never times out' is posed as stated and fails by design of the implementation (known finding).")
+
+PROPS["C15"] = mux_prop(
+    "C15", pick("c15_", extra=["c10_bind_disabled_absent", "c10_bind_enabled_absent", "c10_finish_bindreq", "c10_reset_bindreq", "c10_ack_bindreq", "c07_id_alloc"]),
+    note="requester with another bind pending and answers in the other order; responder accept / reject / drop; teardown",
+    bounds=dict(concurrent_binds="2", answers="Finish / Reset in either order, teardown", host="1 byte symbolic", types="both"), outside=COMMON_OUTSIDE + ["application bind queue full (blocks the connection task by design)"],
+    assumptions=[], explanation="One Bind frame per request under a fresh non-zero id with the requested type/host/port; each request resolves exactly once with its own answer; the responder shows exactly the request and answers exactly once (Finish for accept, Reset for reject/drop); ids are released.")
 
 # ---------------------------------------------------------------------------------------------
 # MANIFEST texts
@@ -246,10 +368,60 @@ NOT_APPLICABLE = {
     "C01": "end-to-end behaviour over real TCP/UDP/Unix sockets, the tokio multi-thread runtime, hyper and the rusty-penguin binary crate (rustls/aws-lc FFI in its closure): none of it can be compiled by Kani or encoded by hand within reach; its codec-level ingredients are decided under C02, C09, C11, C13, C18",
     "C17": "certificate-path validation, name matching and client-certificate verification happen inside rustls/webpki/aws-lc-rs (C and assembly behind FFI); the repository's part is a four-arm match that only has meaning through those libraries — nothing a solver can encode",
 }
-for _p in ["C02", "C03", "C04", "C05", "C06", "C07", "C08", "C11", "C12", "C13", "C14", "C15", "C16"]:
+for _p in ["C08", "C13", "C14"]:
     NOT_APPLICABLE.setdefault(_p, WIP)
 
 MANIFEST_TEXT = {
+    "C16": dict(
+        design_ref="DESIGN.md §4-C16",
+        level_text="PARTIAL. Bounded model checking of the real schedule_ping_task under a virtual clock (model of tokio::time): for the enumerated (interval, timeout) pairs and every pong history the solver can choose over 3-5 ticks, exactly one Ping is sent per interval, KeepaliveTimeout is reported exactly when more than T has elapsed since the last pong or start-up (so never before T and never later than T+I after it), nothing happens when the interval is disabled, and the options API clamps T >= I for all values. The clause 'each ping answered within T never times out' is posed as stated; the solver returns histories where two in-time answers are more than T apart (the loop measures from the last pong, not from the ping) - recorded as a known finding.",
+        level_note="Trusted: the tokio::time model (interval: first tick immediate, then every period, Skip behaviour), the other mux models. Ticks are exactly on time; consequences of the timeout for pending calls are C08's. Bounds: (I,T) pairs listed in the evidence, <= 5 ticks.",
+    ),
+    "C02": dict(
+        design_ref="DESIGN.md §4-C02",
+        level_text="Bounded model checking of the real write / sender-step / dispatch / read code as four local contracts (W, S, D, R) whose conjunction, with the codec property C09 and FIFO channels, gives the statement: every successful write yields exactly one Push carrying exactly its bytes for its own flow; the sender step forwards exactly the head of the outbound queue; a Push is appended to its own flow's queue only (bystander untouched); reads return the next bytes in order and pop a frame only when the previous one is used up. Each contract holds from every bounded state, so it covers schedules and histories of any length; the composition is a written argument.",
+        level_note='Bounds: payloads <= 3 bytes, <= 2 queued frames, <= 3 flows. The end-to-end quantifier over interleavings is discharged by decomposition, not explored. Trusted: Kani/CBMC; sequential models of tokio channels/io/time, hashbrown, parking_lot (a lock taken while held = panic), bytes, tracing; enum layout pins in the scratch copy; the hand-written composition argument in DESIGN.md. Single-threaded execution: no real interleavings except the sequentialised race of C12.',
+    ),
+    "C03": dict(
+        design_ref="DESIGN.md §4-C03",
+        level_text="Bounded model checking of every transition of the credit accounting (initial credit = peer's advertised window; one unit per Push and none without credit; overrun resets only the offending flow; Acknowledge carries exactly the frames consumed since the last one and resets the counter; Acknowledge(n) adds exactly n) over full-width symbolic windows, thresholds and counters. The per-flow invariant credit + in-flight + queued + consumed-unacked + acks-in-flight = rwnd follows by induction over these steps (written argument).",
+        level_note='Bounds: queue capacity 2; arithmetic full width. Trusted: Kani/CBMC; sequential models of tokio channels/io/time, hashbrown, parking_lot (a lock taken while held = panic), bytes, tracing; enum layout pins in the scratch copy; the hand-written composition argument in DESIGN.md. Single-threaded execution: no real interleavings except the sequentialised race of C12.',
+    ),
+    "C04": dict(
+        design_ref="DESIGN.md §4-C04",
+        level_text="PARTIAL. Decided by the solver for ALL accepted Options values and peer windows: every new stream's acknowledgement threshold satisfies 1 <= threshold <= the window this side advertised (the pinned tree clamped against the peer's window and deadlocked for e.g. rwnd 4 / threshold 8 / peer 16), an Acknowledge is emitted as soon as the threshold is reached, the connection task never blocks on a slow reader or a full datagram buffer, and a writer blocked on credit is woken when it arrives (C12). Eventual completion of writes under a fair scheduler is a liveness property and is not checked by this technique.",
+        level_note='Only the safety conditions progress depends on are decided; no fairness or temporal reasoning. Trusted: Kani/CBMC; sequential models of tokio channels/io/time, hashbrown, parking_lot (a lock taken while held = panic), bytes, tracing; enum layout pins in the scratch copy; the hand-written composition argument in DESIGN.md. Single-threaded execution: no real interleavings except the sequentialised race of C12.',
+    ),
+    "C05": dict(
+        design_ref="DESIGN.md §4-C05",
+        level_text="Bounded model checking of the end-of-stream rules on the real MuxStream and Task code: a read reports EOF only if the inbound sender is gone and the queue is drained; a zero-length (plain or vectored) write is followed through the peer's inbound queue to the peer's reader and must not read as EOF nor lose later data; Finish closes only the inbound direction; shutdown emits Finish exactly once, keeps reading usable, and later writes fail with BrokenPipe without transmitting.",
+        level_note='Bounds: <= 2 queued frames, writes of 0/1 bytes. Trusted: Kani/CBMC; sequential models of tokio channels/io/time, hashbrown, parking_lot (a lock taken while held = panic), bytes, tracing; enum layout pins in the scratch copy; the hand-written composition argument in DESIGN.md. Single-threaded execution: no real interleavings except the sequentialised race of C12.',
+    ),
+    "C06": dict(
+        design_ref="DESIGN.md §4-C06",
+        level_text='Bounded model checking of the close paths from an arbitrary bounded flow table: dropping a stream removes its slot and sends Reset exactly if Finish was not sent; a peer Reset is never answered, leaves queued data readable then EOF, makes writes fail with BrokenPipe; the table shrinks by exactly one; a bystander flow is untouched; re-opening the released id yields a flow with fresh credit, flags, queue and counters. One step from every bounded state covers open/close histories of any length.',
+        level_note='Bounds: <= 3 slots; closed flow with symbolic credit/flags and one queued frame. Trusted: Kani/CBMC; sequential models of tokio channels/io/time, hashbrown, parking_lot (a lock taken while held = panic), bytes, tracing; enum layout pins in the scratch copy; the hand-written composition argument in DESIGN.md. Single-threaded execution: no real interleavings except the sequentialised race of C12.',
+    ),
+    "C07": dict(
+        design_ref="DESIGN.md §4-C07",
+        level_text="Bounded model checking of stream opening: id allocation over ALL RNG draw sequences (up to 4 draws) never yields 0 or an id in use and adds exactly one slot; a request emits exactly one Connect with the requested host bytes, port and own rwnd; an Acknowledge establishes the flow exactly once with the peer's window as credit; a rejected requester retries with a fresh id and fails with FlowIdRejected after exactly max_flow_id_retries attempts; the acceptor sees exactly host, port and credit and acknowledges with its own rwnd; a colliding Connect is Reset without disturbing the local request.",
+        level_note="Bounds: retries 1 and 2, host 2 bytes, one live flow, 4 RNG draws. The peer's answers are applied through the functions process_frame dispatches to (dispatch itself: C10). Trusted: Kani/CBMC; sequential models of tokio channels/io/time, hashbrown, parking_lot (a lock taken while held = panic), bytes, tracing; enum layout pins in the scratch copy; the hand-written composition argument in DESIGN.md. Single-threaded execution: no real interleavings except the sequentialised race of C12.",
+    ),
+    "C11": dict(
+        design_ref="DESIGN.md §4-C11",
+        level_text="Bounded model checking of the datagram path: send_datagram refuses a host longer than 255 octets with DatagramHostTooLong and no other effect, and otherwise queues exactly one frame carrying flow id, host, port and payload unchanged (all symbolic, incl. id 0 and empty fields); the receive step from every buffer occupancy appends at the tail or drops when full, always returns Ok without blocking and without touching stream slots; what send_datagram emits for payloads of 0..4 bytes is accepted by the peer's decoder (the pinned tree rejected 0..3 bytes and tore the connection down).",
+        level_note='Bounds: hosts 0,1,2 (255/256 in the thorough tier), payloads <= 4 bytes, buffer size 2. Trusted: Kani/CBMC; sequential models of tokio channels/io/time, hashbrown, parking_lot (a lock taken while held = panic), bytes, tracing; enum layout pins in the scratch copy; the hand-written composition argument in DESIGN.md. Single-threaded execution: no real interleavings except the sequentialised race of C12.',
+    ),
+    "C12": dict(
+        design_ref="DESIGN.md §4-C12",
+        level_text="PARTIAL. Sequentialised two-party race decided by the solver over the real poll_obtain_write_permission, acknowledge and disallow_write with the real futures AtomicWaker: the other party's whole operation is injected before the writer's poll, at each place where the poll logs (scheduling points provided by the tracing model), or after it; whenever the poll returns Pending although credit arrived or the stream was closed, a wake-up must have been delivered, and the final credit equals grants minus permissions. This reproduces the pinned tree's lost wake-up (acknowledge between the credit load and the waker registration). Interleavings at the granularity of single atomic operations and weak-memory behaviours are outside what Kani can express.",
+        level_note='Sequential consistency, whole-operation injection at log sites only, one writer. A witness guards against the scheduling points disappearing. Trusted: Kani/CBMC; sequential models of tokio channels/io/time, hashbrown, parking_lot (a lock taken while held = panic), bytes, tracing; enum layout pins in the scratch copy; the hand-written composition argument in DESIGN.md. Single-threaded execution: no real interleavings except the sequentialised race of C12.',
+    ),
+    "C15": dict(
+        design_ref="DESIGN.md §4-C15",
+        level_text='Bounded model checking of bind requests on the real code: one Bind frame per request under a fresh non-zero id with the requested type, host and port; with a second bind pending and answered first, each request resolves exactly once with its own verdict (Finish -> true, Reset -> false, teardown -> false/Closed) and the ids are released; the responder shows the application exactly the request and emits exactly one answer (Finish on accept, Reset on reject or drop) - the pinned tree sent a second frame when the request object was dropped after replying.',
+        level_note='Bounds: two concurrent binds, host 1 byte. Trusted: Kani/CBMC; sequential models of tokio channels/io/time, hashbrown, parking_lot (a lock taken while held = panic), bytes, tracing; enum layout pins in the scratch copy; the hand-written composition argument in DESIGN.md. Single-threaded execution: no real interleavings except the sequentialised race of C12.',
+    ),
     "C10": dict(
         design_ref="DESIGN.md §4-C10",
         level_text="Bounded model checking of the real Task::process_frame: for every opcode (all field values symbolic) and every state of the addressed flow (absent, requested, bind-requested, established with room / full / half-closed), with an arbitrary bystander flow on the same endpoint, the step must return Ok without panicking or blocking, emit exactly the reply PROTOCOL.md prescribes (Reset for unknown flows, never a Reset in reply to a Reset, Reset of only the offending flow on window overrun) and leave the bystander's state and queued data untouched. One step from every bounded state covers frame sequences of any length.",
